@@ -781,7 +781,7 @@ def run_c17(ctx, chk):
             if cond == 'scroll' and not scrolled:
                 continue
             cnt += 1
-            if not all_rows_marked(eng, st, evs):
+            if not all_rows_marked(eng, st, evs, ctx, sr):
                 bad.append(r.label)
         chk.instance('R-DIRTY', short(f), 'marks every row', cnt > 0 and not bad, detail='unmarked on: %s' % bad[:2] if bad else '%d exit paths' % cnt,
                      span=prog.bodies[f].span, what='%s does not mark all rows dirty on [%s]' % (meth, bad[:1]))
@@ -793,7 +793,7 @@ def run_c17(ctx, chk):
         if not any(ev[0] == 'w' for ev in evs):
             continue      # same-size no-op
         cnt += 1
-        if not all_rows_marked(eng, st, evs):
+        if not all_rows_marked(eng, st, evs, ctx, sr):
             bad.append(r.label)
     chk.instance('R-DIRTY', short(f), 'marks every row of the new geometry', cnt > 0 and not bad, detail='unmarked on: %s' % bad[:2] if bad else '%d exit paths' % cnt,
                  span=prog.bodies[f].span, what='resize does not mark all rows dirty on [%s]' % bad[:1])
@@ -811,14 +811,20 @@ def run_c17(ctx, chk):
             chk.findings.append(fd)
 
 
-def all_rows_marked(eng, st, evs):
+def all_rows_marked(eng, st, evs, ctx=None, sr=None):
     lines = get(eng, st, 'lines')
-    for ev in evs:
-        if ev[0] == 'set.extend' and ev[1] == ('S', 'dirty') and isinstance(ev[2], tuple) and ev[2][0] == 'range':
-            lo, hi = ev[2][1], ev[2][2]
-            if isinstance(lo, NumV) and isinstance(hi, NumV) and isinstance(lines, NumV):
-                if eng.prove_le(st, lo, NumV(None, 0, 'u32')) is True and eng.prove_le(st, lines, hi) is True:
-                    return True
+    if ctx is not None and sr is not None:
+        marks = g.dirty_marks(ctx, sr, evs)
+    else:
+        marks = [('range', ev[2][1], ev[2][2], bool(ev[2][3])) for ev in evs
+                 if ev[0] == 'set.extend' and ev[1] == ('S', 'dirty') and isinstance(ev[2], tuple) and ev[2][0] == 'range']
+    for m in marks:
+        if m[0] != 'range':
+            continue
+        lo, hi = m[1], m[2]
+        if isinstance(lo, NumV) and isinstance(hi, NumV) and isinstance(lines, NumV):
+            if eng.prove_le(st, lo, NumV(None, 0, 'u32')) is True and eng.prove_le(st, lines, hi) is True:
+                return True
     return False
 
 
